@@ -85,6 +85,7 @@ ENUM_SOURCES = {}   # enum name -> (file, class)
 EXC_PARENTS = {     # exception class -> parent (for except matching)
     "Exception": "BaseException",
     "SystemExit": "BaseException",
+    "ValidationError": "Exception",
     "KeyboardInterrupt": "BaseException",
     "AssertionError": "Exception",
     "KeyError": "LookupError",
